@@ -419,15 +419,33 @@ func oracle(c *caseJ, o *observed) (string, interface{}) {
 
 // ---- Coq term ---------------------------------------------------------------------------------
 
+// coqBytes prints a byte string as an explicit list of Coq.Strings.Byte constructors.
+func coqBytes(b []byte) string {
+	if len(b) == 0 {
+		return "[]"
+	}
+	var sb strings.Builder
+	sb.Grow(5*len(b) + 2)
+	sb.WriteByte('[')
+	for i, x := range b {
+		if i > 0 {
+			sb.WriteByte(';')
+		}
+		fmt.Fprintf(&sb, "x%02x", x)
+	}
+	sb.WriteByte(']')
+	return sb.String()
+}
+
 func coqOptHex(p *string) string {
 	if p == nil {
 		return "None"
 	}
-	return "(Some " + vh.CoqHex(unhx(*p)) + ")"
+	return "(Some " + coqBytes(unhx(*p)) + ")"
 }
 
 func coqCase(c *caseJ, o *observed) string {
-	cfg := fmt.Sprintf("(mkCfg %s %s %s %s %s %s)", vh.CoqHex(unhx(c.Cfg.Seg)), vh.CoqHex(unhx(c.Cfg.Elem)),
+	cfg := fmt.Sprintf("(mkCfg %s %s %s %s %s %s)", coqBytes(unhx(c.Cfg.Seg)), coqBytes(unhx(c.Cfg.Elem)),
 		coqOptHex(c.Cfg.Comp), coqOptHex(c.Cfg.Rep), coqOptHex(c.Cfg.Rel), vh.CoqBool(c.Cfg.IgnoreCRLF))
 	var raws []string
 	for _, s := range o.Raw {
@@ -437,9 +455,9 @@ func coqCase(c *caseJ, o *observed) string {
 		}
 		var es []string
 		for _, e := range s.Elems {
-			es = append(es, fmt.Sprintf("mkRE %d %d %s", e.EI, e.CI, vh.CoqHex(e.Data)))
+			es = append(es, fmt.Sprintf("mkRE %d %d %s", e.EI, e.CI, coqBytes(e.Data)))
 		}
-		raws = append(raws, fmt.Sprintf("SegOk %s %s", vh.CoqHex(s.Name), vh.CoqList(es)))
+		raws = append(raws, fmt.Sprintf("SegOk %s %s", coqBytes(s.Name), vh.CoqList(es)))
 	}
 	full := "None"
 	if c.Full != nil {
@@ -458,11 +476,11 @@ func coqCase(c *caseJ, o *observed) string {
 			}
 			var ks []string
 			for _, k := range r.Kids {
-				ks = append(ks, fmt.Sprintf("(%d, %s)", k.K, vh.CoqHex(k.Text)))
+				ks = append(ks, fmt.Sprintf("(%d, %s)", k.K, coqBytes(k.Text)))
 			}
 			rs = append(rs, "RNode "+vh.CoqList(ks))
 		}
-		full = fmt.Sprintf("(Some (%s, %s, %s))", vh.CoqHex(unhx(c.Full.Name)), vh.CoqList(ds), vh.CoqList(rs))
+		full = fmt.Sprintf("(Some (%s, %s, %s))", coqBytes(unhx(c.Full.Name)), vh.CoqList(ds), vh.CoqList(rs))
 	}
 	logical := "None"
 	if c.Logical != nil && c.InModel {
@@ -477,7 +495,7 @@ func coqCase(c *caseJ, o *observed) string {
 				for _, rep := range el {
 					var comps []string
 					for _, comp := range rep {
-						comps = append(comps, vh.CoqHex(unhx(comp)))
+						comps = append(comps, coqBytes(unhx(comp)))
 					}
 					reps = append(reps, vh.CoqList(comps))
 				}
@@ -487,7 +505,7 @@ func coqCase(c *caseJ, o *observed) string {
 		}
 		logical = "(Some " + vh.CoqList(ss) + ")"
 	}
-	return fmt.Sprintf("mkECase %s %s %s %s %s", cfg, vh.CoqHex(unhx(c.InputHex)), vh.CoqList(raws), full, logical)
+	return fmt.Sprintf("mkECase %s %s %s %s %s", cfg, coqBytes(unhx(c.InputHex)), vh.CoqList(raws), full, logical)
 }
 
 // ---- main ------------------------------------------------------------------------------------
@@ -638,6 +656,34 @@ func evaluate(c *caseJ, sum *vh.Summary, cw *vh.CaseWriter, verbose bool) {
 			sum.Hist("full-reader-fatal")
 		}
 	}
+	for _, s := range c.Logical {
+		n := len(s.Elems) - 1 // elements after the name
+		switch {
+		case n == 0:
+			sum.Hist("elems-after-name:0")
+		case n <= 8:
+			sum.Hist("elems-after-name:1-8")
+		case n <= 32:
+			sum.Hist("elems-after-name:9-32")
+		case n <= 64:
+			sum.Hist("elems-after-name:33-64")
+		default:
+			sum.Hist("elems-after-name:65-130")
+		}
+		if c.Full != nil && (n == 31 || n == 32 || n == 33 || n == 63 || n == 64 || n == 65 || n == 127 || n == 128 || n == 129) {
+			sum.Hist(fmt.Sprintf("full-reader-segment-with-%d-elems", n))
+		}
+		for _, el := range s.Elems {
+			if len(el) > 12 {
+				sum.Hist("element-with->12-repetitions")
+			}
+			for _, rp := range el {
+				if len(rp) > 12 {
+					sum.Hist("repetition-with->12-components")
+				}
+			}
+		}
+	}
 	if len(sum.Samples) < 4 && c.Mode == "ok" && len(c.InputHex) < 400 && nontrivial(c) {
 		sum.Sample(map[string]interface{}{"case": c, "input": string(unhx(c.InputHex)), "raw": showAll(o)})
 	}
@@ -677,7 +723,7 @@ func main() {
 	sum := vh.NewSummary("C07", o,
 		"EDI inputs run through edi.NewNonValidatingReader and edi.NewReader; non-trivial = an 'ok' case (logical segments encoded by the generator's inverse, oracle evaluated) in which at least one data value contains a delimiter or the release character, so that escaping decides the result; distinct by (configuration, input bytes, chunking, declarations)")
 	cw := vh.NewCaseWriter(o, "C07", "Base.Utf8 Model.Edi", "ecase", "check_case")
-	cw.PerFile = 120
+	cw.PerFile = 95
 	// the initial scanner buffer is an exported knob of the package; long segments are sized against it
 	if edi.ReaderBufSize >= 16 && edi.ReaderBufSize <= 512 {
 		bufSize = edi.ReaderBufSize
